@@ -384,8 +384,9 @@ class AsyncoreConnection(Connection, asyncore.dispatcher):
         log.debug("Closed socket to %s", self.endpoint)
 
         if not self.is_defunct:
-            self.error_all_requests(
-                ConnectionShutdown("Connection to %s was closed" % self.endpoint))
+            shutdown_error = ConnectionShutdown("Connection to %s was closed" % self.endpoint)
+            self.error_all_cp_sessions(shutdown_error)
+            self.error_all_requests(shutdown_error)
 
             #This happens when the connection is shutdown while waiting for the ReadyMessage
             if not self.connected_event.is_set():
